@@ -188,6 +188,15 @@ func discharge(o *Obligation, opt *solveOpts, idx int) {
 		return
 	}
 	o.Verdict = "unknown"
+	nerr := 0
+	for _, r := range got {
+		if r.v == "error" {
+			nerr++
+		}
+	}
+	if nerr == len(got) {
+		o.Verdict = "error"
+	}
 	for _, r := range got {
 		if r.v == "timeout" {
 			o.Verdict = "timeout"
@@ -324,4 +333,15 @@ func vacuous(obls []*Obligation) (bad []*Obligation, dead []*Obligation) {
 		}
 	}
 	return
+}
+
+// pending: obligations that have no verdict yet (the Houdini rounds already decided some)
+func pending(obls []*Obligation) []*Obligation {
+	var out []*Obligation
+	for _, o := range obls {
+		if o.Verdict == "" {
+			out = append(out, o)
+		}
+	}
+	return out
 }
